@@ -183,10 +183,29 @@ def programs(tier, seed):
     from checks.c05 import instances as c05_instances
     rng = random.Random(seed)
     out = []
+    def sig(p):
+        """structural signature of a program: root tag, op, and the tags/ops of its direct children"""
+        def t(x):
+            if isinstance(x, tuple) and x and isinstance(x[0], str):
+                return (x[0], x[1] if len(x) > 1 and isinstance(x[1], str) and x[0] in ("unary", "binary", "reduce", "outreduce") else None)
+            if isinstance(x, tuple):
+                return tuple(t(y) for y in x if isinstance(y, tuple))
+            return None
+        return (t(p), tuple(t(x) for x in p[1:] if isinstance(x, tuple)))
     for theme in ("real", "log", "bool", "int", "pos"):
         d1 = list(gen.depth1(theme))
         rng.shuffle(d1)
-        out += [(theme, p) for p in d1[:80 if tier == "quick" else 600]]
+        # stratified: every structural signature (constructor x op x argument kinds) is represented, so that every
+        # eager rule reachable from the depth-1 family fires in every run
+        per_sig, chosen, rest = collections.Counter(), [], []
+        for p in d1:
+            k = sig(p)
+            if per_sig[k] < (1 if tier == "quick" else 4):
+                per_sig[k] += 1
+                chosen.append(p)
+            else:
+                rest.append(p)
+        out += [(theme, p) for p in chosen + rest[:40 if tier == "quick" else 400]]
         d2 = list(gen.depth2(theme, rng, per_inner=1 if tier == "quick" else 2))
         rng.shuffle(d2)
         out += [(theme, p) for p in d2[:40 if tier == "quick" else 500]]
@@ -199,7 +218,7 @@ def programs(tier, seed):
     c5 = [i for i in c05_instances(tier, seed) if i[0] == "immediate"]
     rng.shuffle(c5)
     out += [("binders", i[2]) for i in c5[:60 if tier == "quick" else 400]]
-    out += [("real", p) for p in gen.einsum_progs()] + [("real", p) for p in gen.constant_progs()] + [("log", p) for p in gen.constant_progs("log")]
+    out += [("real", p) for p in gen.einsum_progs()] + [("real", p) for p in gen.constant_progs()] + [("real", p) for p in gen.nondistributive_progs()] + [("log", p) for p in gen.constant_progs("log")]
     return out
 
 
